@@ -66,6 +66,15 @@ def run(v, tier, seed, name="replay"):
     # report the values: "the random values handed to processes"
     from . import py_suite
     sim_scen += [(f"pr{i}", py_suite.gen_py_sim(rng, "pyr")) for i in range(max(20, nsim // 10))]
+    # the simulation-wide generator through the System API (gen_range, random_string) between the other calls
+    def with_rand(lines):
+        out = []
+        for l in lines:
+            out.append(l)
+            if l.split()[0] in ("local", "step", "steps", "crash", "recover") and rng.random() < 0.3:
+                out.append("rand")
+        return out
+    sim_scen += [(f"rg{i}", with_rand(sim_suite.gen_scenario(rng, dict(procs=(2, 4), p_rand=0.3, p_crash=0.3)))) for i in range(max(30, nsim // 10))]
     nviol = 0
     nontriv = set()
     evals = 0
